@@ -87,3 +87,19 @@ func init() {
 		}
 	})
 }
+
+// Copies on the DMA path are part of "results do not depend on how data are spread" (C18) and of
+// "the effects of a queue's commands" (C12): the owner/piece scenario of C11 (consecutive virtual
+// pages on the last frame of one GPU and the first frame of the next, unaligned ranges) is evaluated
+// as an oracle of both.
+func init() {
+	f := func(r *Run, rng *Rng, _ string) {
+		r.OracleOnly = true
+		defer func() { r.OracleOnly = false }()
+		for i := 0; i < 60; i++ {
+			c11OwnerScenario(r, rng)
+		}
+	}
+	register("C12", f)
+	register("C18", f)
+}
